@@ -260,15 +260,22 @@ func (w *World) kill(st *storeState) {
 		return
 	}
 	st.killed = true
+	stuck := false
 	if st.parked {
-		// cannot happen at a statement boundary; let it go through
-		w.runFlusher(st)
+		if st.readers > 0 || st.writer {
+			// a lock was leaked: the flusher can never get it. Leave its
+			// goroutine parked (it touches nothing) instead of hanging here.
+			stuck = true
+			w.count("flusher_left_parked_on_leaked_lock")
+		} else {
+			w.runFlusher(st)
+		}
 	}
 	closed := st.exited
 	st.exited = true
 	func() {
 		defer func() { recover() }()
-		st.fs.VerifKill(!closed && st.auto)
+		st.fs.VerifKill(!closed && st.auto && !stuck)
 	}()
 }
 
@@ -810,6 +817,9 @@ func (w *World) EndStmt() {
 	w.inStmt = false
 	w.directives = nil
 }
+
+// SessionLocks is the number of store locks the session task holds.
+func (w *World) SessionLocks() int { return w.sessLocks }
 
 // Dirty returns the number of dirty pages and entries in the current store's cache.
 func (w *World) Dirty() (dirty, entries, capacity int) {
